@@ -146,7 +146,7 @@ class Model:
                     self.spec_calculated.add((r.uid, b.uid))
         self.problems = regspec.layout_problems(regs, check_overlap=self.area != "fuses")
         self.span = max((r.offset + max(1, r.width // 8) for r in regs), default=0)
-        self.clean = not [p for p in self.problems if not p.startswith("bitfield_offset_mismatch")]
+        self.clean = not [p for p in self.problems if not p.startswith(("bitfield_offset_mismatch", "overlap_reserved"))]
         if self.area == "pfr":
             self.size = regspec.to_int(rec.get("size"), 0) or _PFR_SIZES.get(self.sub)
         elif self.area == "ifr":
@@ -1513,5 +1513,5 @@ def parts(ctx):
     n_quick = 900
     return [
         EnumPart("defaults", _tuples_count, _tuples_item, run_defaults),
-        HypPart("values", _values_strategy, run_values, {"quick": n_quick, "thorough": 60000}),
+        HypPart("values", _values_strategy, run_values, {"quick": n_quick, "thorough": 30000}),
     ]
